@@ -40,6 +40,21 @@ def lookup {α β} [BEq α] (k : α) : List (α × β) → Option β
   | [] => none
   | (k', v) :: r => if k' == k then some v else lookup k r
 
+/-- `sep.join(parts)` -/
+def joinSep (sep : Str) : List Str → Str
+  | [] => []
+  | [x] => x
+  | x :: y :: r => x ++ sep ++ joinSep sep (y :: r)
+
+/-- `s.split(c)` for a one-character separator: always at least one field -/
+def splitOnC (c : Char) : Str → List Str
+  | [] => [[]]
+  | x :: xs =>
+    if x == c then [] :: splitOnC c xs
+    else match splitOnC c xs with
+      | [] => [[x]]      -- unreachable: `splitOnC` never returns []
+      | f :: fs => (x :: f) :: fs
+
 /-- `first some` over a list (the Python `for … if r is not None: return r`). -/
 def firstSome {α β} (f : α → Option β) : List α → Option β
   | [] => none
